@@ -289,7 +289,7 @@ var $newType = (size, kind, string, named, pkg, exported, constructor) => {
                 /* methods for embedded fields */
                 $addMethodSynthesizer(() => {
                     var synthesizeMethod = (target, m, f) => {
-                        if (target.prototype[m.prop] !== undefined) { return; }
+                        if (Object.prototype.hasOwnProperty.call(target.prototype, m.prop)) { return; }
                         target.prototype[m.prop] = function(...args) {
                             var v = this.$val[f.prop];
                             if (f.typ === $jsObjectPtr) {
